@@ -47,6 +47,9 @@ type Session struct {
 	conn     net.Conn
 	brw      *bufio.ReadWriter
 	vals     map[string]interface{}
+	// authority is the host:port of the CONNECT request when the session runs
+	// inside a MITM'd tunnel.
+	authority string
 }
 
 var (
@@ -154,6 +157,20 @@ func (s *Session) setConn(conn net.Conn, brw *bufio.ReadWriter) {
 
 	s.conn = conn
 	s.brw = brw
+}
+
+func (s *Session) setTunnelAuthority(authority string) {
+	s.mu.Lock()
+	defer s.mu.Unlock()
+
+	s.authority = authority
+}
+
+func (s *Session) tunnelAuthority() string {
+	s.mu.RLock()
+	defer s.mu.RUnlock()
+
+	return s.authority
 }
 
 // connection returns the connection the session currently runs on. After a
